@@ -73,7 +73,7 @@ Proof.
 Qed.
 Print Assumptions gro_holds_core.
 
-(* holdsb (written with shared sub-computations) is the conjunction of the five clauses *)
+(* holdsb (written with shared sub-computations) is the conjunction of the six clauses *)
 Lemma csums_ok2_eq wr : csums_ok2 wr (map (fun b => kernel_segment (b_hdr b) (b_pkt b)) wr) =
   forallb (fun b => forallb (fun s => ip_csum_ok s && l4_csum_ok s) (kernel_segment (b_hdr b) (b_pkt b))) (filter is_gso wr).
 Proof.
@@ -82,9 +82,9 @@ Proof.
 Qed.
 Theorem holdsb_clauses inp tw out :
   holdsb inp tw out = bookkeeping_ok inp tw out && passthrough_ok inp tw out && floweq_ok inp tw out
-                      && udp_order_ok inp tw out && headers_valid_ok tw out.
+                      && udp_order_ok inp tw out && headers_valid_ok tw out && csum_kept_ok inp tw out.
 Proof.
-  unfold holdsb, bookkeeping_ok, floweq_ok, floweq_gen, udp_order_ok, udp_order_gen, udp_order_segs, headers_valid_ok,
+  unfold holdsb, csum_kept_ok, bookkeeping_ok, floweq_ok, floweq_gen, udp_order_ok, udp_order_gen, udp_order_segs, headers_valid_ok,
     descriptors_ok, lengths_all_ok, checksums_ok, gso_buffers, segments. cbv zeta.
   rewrite csums_ok2_eq, <- flat_map_concat_map. reflexivity.
 Qed.
